@@ -445,6 +445,16 @@ class Folder:
                 return BoolList(r_) if isinstance(r_, list) else r_
             except TypeError as exc:
                 raise Unfoldable(str(exc))
+        if isinstance(node, ast.Call) and not node.keywords and isinstance(node.func, (ast.Name, ast.Attribute)):
+            try:
+                target = self.fold(node.func) if (isinstance(node.func, ast.Name) and node.func.id in self.names) or (isinstance(node.func, ast.Attribute) and attr_chain(node.func) in self.attrs) else None
+            except Unfoldable:
+                target = None
+            if target is not None and getattr(type(target), "_kv_eval_obj", False) and callable(target):
+                try:
+                    return target(*[self.fold(a) for a in node.args])
+                except (TypeError, ValueError, IndexError) as exc:
+                    raise Unfoldable(str(exc))
         if isinstance(node, ast.Call) and isinstance(node.func, ast.Attribute) and self.funcs and attr_chain(node.func) in self.funcs:
             # a method of the analysed class the caller allows to be followed (`self._helper(...)`)
             fake = ast.Call(func=ast.Name(id=attr_chain(node.func), ctx=ast.Load()), args=node.args, keywords=node.keywords)
@@ -526,16 +536,6 @@ class Folder:
                 fake = ast.Call(func=ast.Attribute(value=ast.Name(id="torch", ctx=ast.Load()), attr=m, ctx=ast.Load()), args=[node.func.value] + list(node.args), keywords=list(node.keywords))
                 return self.fold(fake)
             raise Unfoldable(f"method {m}")
-        if isinstance(node, ast.Call) and not node.keywords and isinstance(node.func, (ast.Name, ast.Attribute)):
-            try:
-                target = self.fold(node.func) if (isinstance(node.func, ast.Name) and node.func.id in self.names) or (isinstance(node.func, ast.Attribute) and attr_chain(node.func) in self.attrs) else None
-            except Unfoldable:
-                target = None
-            if target is not None and getattr(type(target), "_kv_eval_obj", False) and callable(target):
-                try:
-                    return target(*[self.fold(a) for a in node.args])
-                except (TypeError, ValueError, IndexError) as exc:
-                    raise Unfoldable(str(exc))
         if isinstance(node, ast.Call) and isinstance(node.func, ast.Name) and node.func.id in self.ctors and not node.keywords:
             try:
                 return self.ctors[node.func.id](*[self.fold(a) for a in node.args])
